@@ -156,10 +156,16 @@ def examine(case):
     res.tags = ["cls=" + case["cls"], "stmt=" + case["stmt"], "n=%d" % len(calls)] + ["kind=" + k for k in kinds]
     texts = {}
     first = None
+    # every interleaving is chained onto ONE shared head object (the way statements are assembled piecewise in
+    # practice): placement must not depend on what other chains were built from the same head before
+    try:
+        shared = ns.ev(h)
+    except Exception:
+        shared = None
     for order in interleavings(calls, rng, None if case.get("all") else 12):
         src = h + "".join(calls[i]["src"] for i in order)
         try:
-            q = ns.ev(src)
+            q = ns.ev("base_" + "".join(calls[i]["src"] for i in order), {"base_": shared}) if shared is not None else ns.ev(src)
             text = str(q)
         except Exception as e:
             text = "raises %s" % type(e).__name__
